@@ -306,6 +306,21 @@ int main(void)
 			cur_sid = -1;
 			printf("\n@ok st=%s v=%u\n", stname(st), st == OF_STATUS_OK ? v : 0); goto next;
 		}
+		if (!strcmp(op, "unconf")) {
+			/* calls that take an ESI, on a session that has no parameters yet (n = 0: every ESI is out of range) */
+			if (s->configured) { printf("\n@bad-op configured\n"); goto next; }
+			unsigned char *buf = abuf(16); void *tab[4] = {0, 0, 0, 0};
+			cur_sid = sid;
+			const char *r0 = stname(of_decode_with_new_symbol(s->ses, buf, 0));
+			const char *r1 = stname(of_decode_with_new_symbol(s->ses, buf, 1));
+			const char *r2 = stname(of_decode_with_new_symbol(s->ses, buf, 0xFFFFFFFFu));
+			const char *b0 = stname(of_build_repair_symbol(s->ses, tab, 0));
+			const char *b1 = stname(of_build_repair_symbol(s->ses, tab, 1));
+			const char *b2 = stname(of_build_repair_symbol(s->ses, tab, 0xFFFFFFFFu));
+			cur_sid = -1;
+			printf("\n@ok recv=%s,%s,%s build=%s,%s,%s\n", r0, r1, r2, b0, b1, b2);
+			afree(buf); goto next;
+		}
 		if (!s->configured) { printf("\n@bad-op unconfigured\n"); goto next; }
 		if (!strcmp(op, "payload")) {
 			/* reference codeword: a temporary encoder session of the same codec and parameters (an explicit
@@ -419,12 +434,16 @@ int main(void)
 			if ((s->codec != 3 && s->codec != 5) || !cb->pchk_matrix) { printf("\n@bad-op\n"); goto next; }
 			printf("\n@ok rows=");
 			for (unsigned row = 0; row < s->r; row++) {
-				unsigned tmp[4096]; unsigned cnt = 0;
-				for (of_mod2entry *e = of_mod2sparse_first_in_row(cb->pchk_matrix, row); !of_mod2sparse_at_end(e); e = of_mod2sparse_next_in_row(e))
-					if (cnt < 4096) tmp[cnt++] = of_get_symbol_esi((of_cb_t *)cb, e->col);
+				/* an equation can hold every symbol of the block (N1 = n-k): the buffer has room for n entries; entries beyond
+				 * that would be a malformed matrix and are counted so that the dump shows it */
+				unsigned *tmp = malloc((s->n + 1) * sizeof(unsigned)); unsigned cnt = 0, over = 0;
+				for (of_mod2entry *e = of_mod2sparse_first_in_row(cb->pchk_matrix, row); !of_mod2sparse_at_end(e); e = of_mod2sparse_next_in_row(e)) {
+					if (cnt < s->n) tmp[cnt++] = of_get_symbol_esi((of_cb_t *)cb, e->col); else over++;
+				}
 				for (unsigned i = 1; i < cnt; i++) for (unsigned j = i; j > 0 && tmp[j - 1] > tmp[j]; j--) { unsigned t = tmp[j]; tmp[j] = tmp[j - 1]; tmp[j - 1] = t; }
 				for (unsigned i = 0; i < cnt; i++) printf("%s%u", i ? "," : "", tmp[i]);
-				printf(";");
+				if (over) printf(",!%u-more", over);
+				printf(";"); free(tmp);
 			}
 			printf("\n"); goto next;
 		}
